@@ -19,7 +19,7 @@ class SigmaValidator:
     Exclusions can be defined to exclude validators checks for given rule identifiers.
     """
 
-    validators: set[SigmaRuleValidator]
+    validators: list[SigmaRuleValidator]
     exclusions: DefaultDict[UUID | None, set[Type[SigmaRuleValidator]]]
 
     def __init__(
@@ -28,10 +28,10 @@ class SigmaValidator:
         exclusions: dict[UUID | None, set[Type[SigmaRuleValidator]]] = dict(),
         config: dict[str, dict[str, str | int | float | bool]] = dict(),
     ):
-        self.validators = {
+        self.validators = [
             validator(**config.get(validator_classname_to_identifier(validator.__name__), {}))
-            for validator in validators
-        }
+            for validator in dict.fromkeys(validators)
+        ]
         self.exclusions = defaultdict(set, exclusions)
 
     @classmethod
@@ -57,23 +57,23 @@ class SigmaValidator:
         :rtype: SigmaValidator
         """
         # Build validator class set
-        vs = set()
+        vs: dict[str, None] = dict()
         for v in d.get("validators", []):
             if v == "all":  # all = all known validators
-                vs = set(validators.keys())
+                vs = dict.fromkeys(validators.keys())
             elif v.startswith("-"):  # remove validator from set
                 vn = v[1:]
                 try:
-                    vs.remove(vn)
+                    del vs[vn]
                 except KeyError:
                     raise SigmaConfigurationError(
                         f"Attempting to remove not existing validator '{ vn }' from validator set { sorted(vs) }."
                     )
             else:  # handle as validator name and try to add it to set.
-                vs.add(v)
+                vs[v] = None
 
         try:  # convert validator names into classes
-            validator_classes = {validators[v] for v in vs}
+            validator_classes = [validators[v] for v in vs]
         except KeyError as e:
             raise SigmaConfigurationError(f"Unknown validator '{ e.args[0] }'")
 
